@@ -6,7 +6,7 @@ ENTRY = {
                 "an inductive invariant IndInv; Apalache 0.58.0 discharges Init => IndInv, IndInv /\\ Next => IndInv' (arbitrary IndInv states, --length=1), IndInv => Safety "
                 "and the action invariants, plus a negative control (a one-line mutation for which a counterexample to inductiveness must be found); TLC checks the "
                 "correspondence with the original module over the original's own universes (Orig!Spec => Ind!Spec and back, equal state counts; for Dhcp4 also equality of "
-                "every outcome set in every reachable state of Dhcp4.mc.cfg); thorough adds the TLAPS proofs ClientsProof.tla (228 obligations), Dhcp4Proof.tla (435), "
+                "every outcome set in every reachable state of Dhcp4.mc.cfg); thorough adds the TLAPS proofs ClientsProof.tla (228 obligations), Dhcp4Proof.tla (536), "
                 "RateLimitProof.tla (166) -- arbitrary, also infinite, constant sets --, larger Apalache bounds and bounded checks from Init. Proved: registry -- no two clients "
                 "share a name or an identifier, identifiers / names / leased MACs resolve to their unique owner or to none, a rejected operation changes nothing; DHCPv4 -- one "
                 "lease per address and per client, dynamic leases inside the pool, never the gateway, host names unique, disk = memory, a reservation is never offered or "
